@@ -1,4 +1,13 @@
+import json
+
 from mindsdb_sql.exceptions import ParsingException
+
+
+def dump_param_value(value):
+    # value of a USING parameter: a name (or another node) prints as itself, anything else as json
+    if hasattr(value, 'to_string'):
+        return value.to_string()
+    return json.dumps(value)
 
 
 def indent(level):
